@@ -41,15 +41,22 @@ type PoolCase struct {
 
 // SchedSpec is the schedule part of a case.
 type SchedSpec struct {
-	Seed      uint64  `json:"seed"`
-	Strategy  string  `json:"strategy"`
-	PCTDepth  int     `json:"pct_depth,omitempty"`
-	PCTSteps  int     `json:"pct_steps,omitempty"`
-	TimerProb float64 `json:"timer_prob,omitempty"`
-	Bias      float64 `json:"bias,omitempty"`
-	MaxSteps  uint64  `json:"max_steps,omitempty"`
-	StallG    int     `json:"stall_g,omitempty"`  // stall: which client (1-based) is the slow one
-	StallAt   uint64  `json:"stall_at,omitempty"` // stall: at which of its decision points it is suspended
+	Seed       uint64  `json:"seed"`
+	Strategy   string  `json:"strategy"`
+	PCTDepth   int     `json:"pct_depth,omitempty"`
+	PCTSteps   int     `json:"pct_steps,omitempty"`
+	TimerProb  float64 `json:"timer_prob,omitempty"`
+	Bias       float64 `json:"bias,omitempty"`
+	MaxSteps   uint64  `json:"max_steps,omitempty"`
+	StallG     int     `json:"stall_g,omitempty"`     // stall: which client (1-based) is the slow one
+	StallAt    uint64  `json:"stall_at,omitempty"`    // stall: at which of its decision points it is suspended
+	StallMax   uint64  `json:"stall_max,omitempty"`   // stall: for how many steps of the others at most (0: until nothing else can run)
+	StallAgain uint64  `json:"stall_again,omitempty"` // stall: suspended a second time this many of its own decision points later
+	// stretch: client StallG is held back before every step of kind StretchTag, for StretchFor
+	// steps of the others, at most StretchTimes times
+	StretchTag   string `json:"stretch_tag,omitempty"`
+	StretchFor   uint64 `json:"stretch_for,omitempty"`
+	StretchTimes int    `json:"stretch_times,omitempty"`
 	// PerCallCtx (database programs): every client call gets a context of its own that is cancelled
 	// the moment the call has returned (the `defer cancel()` idiom), while the work the call left
 	// behind (queued deletions) is still under way
@@ -58,12 +65,26 @@ type SchedSpec struct {
 
 func (s SchedSpec) config(choices []int32) simrt.Config {
 	return simrt.Config{Lenient: os.Getenv("VERIF_LENIENT") == "1", Seed: s.Seed, Strategy: s.Strategy, PCTDepth: s.PCTDepth, PCTSteps: s.PCTSteps,
-		TimerProb: s.TimerProb, SwitchBias: s.Bias, MaxSteps: s.MaxSteps, Replay: choices, KeepLog: 60, StallG: s.StallG, StallAt: s.StallAt}
+		TimerProb: s.TimerProb, SwitchBias: s.Bias, MaxSteps: s.MaxSteps, Replay: choices, KeepLog: 60, StallG: s.StallG, StallAt: s.StallAt, StallMax: s.StallMax, StallAgain: s.StallAgain,
+		StretchTag: s.StretchTag, StretchFor: s.StretchFor, StretchTimes: s.StretchTimes}
 }
+
+// kinds of decision points the stretch strategy holds a client back at (tags of simrt/simos/simbadger)
+var stretchTags = []string{"badger.view", "badger.view", "io.badger.update", "os.Open", "io.remove", "io.create", "RWMutex.RLock", "RWMutex.Lock", "Mutex.Lock", "atomic.Add", "select"}
 
 func genSched(r *simrt.Rand, estSteps int) SchedSpec {
 	s := SchedSpec{Seed: r.Uint64(), MaxSteps: 400_000}
-	switch r.Pick(5, 4, 2, 3) {
+	switch r.Pick(5, 4, 2, 3, 3) {
+	case 4:
+		// one client is held back whenever it is about to take a step of one kind (a look-up in the
+		// metadata store, the opening of a file, a lock of some sort ...), several times in a row
+		s.Strategy = "stretch"
+		s.Bias = []float64{0.5, 0.9}[r.Intn(2)]
+		s.TimerProb = 0.01
+		s.StallG = 1 + r.Intn(3)
+		s.StretchTag = stretchTags[r.Intn(len(stretchTags))]
+		s.StretchFor = uint64([]int{40, 120, 300, 800}[r.Intn(4)])
+		s.StretchTimes = 1 + r.Intn(4)
 	case 3:
 		// one slow client: suspended at one of its own decision points until nothing else can run
 		s.Strategy = "stall"
@@ -71,6 +92,11 @@ func genSched(r *simrt.Rand, estSteps int) SchedSpec {
 		s.TimerProb = 0.01
 		s.StallG = 1 + r.Intn(3)
 		s.StallAt = uint64(r.Intn(estSteps/2 + 1))
+		if r.Intn(3) == 0 {
+			// slow twice: a bounded first suspension, a second one a few of its own steps later
+			s.StallMax = uint64([]int{60, 150, 400, 1000}[r.Intn(4)])
+			s.StallAgain = uint64(1 + r.Intn(12))
+		}
 	case 0:
 		s.Strategy = "uniform"
 		s.TimerProb = []float64{0, 0.01, 0.05, 0.2}[r.Intn(4)]
